@@ -804,6 +804,9 @@ class _function(object):
 
             if other[0] == 0.0: 
                 self._constant = matrix(0.0, (len(self),1))
+                self._linear = _lin()
+                self._cvxterms = []
+                self._ccvterms = []
                 return self
 
             if len(self._constant) != 1 or self._constant[0]:
